@@ -576,6 +576,26 @@ pub fn run(rep: &mut Report) {
                 }
             }
         }
+        // refusals of a PUBLISH for v5.0 reasons (Receive Maximum reached, alias unknown / out of range,
+        // too large) on persistent and non-persistent sessions with registered aliases: no trace either
+        for role in [RoleK::Client, RoleK::Server] {
+            if !thorough && role == RoleK::Server {
+                continue;
+            }
+            let mut c = EpCfg::new(&cfg_name("c11-fanout", role, Some(Ver::V5), "alias+limits"), role, Some(Ver::V5));
+            c.auto_pub = true;
+            c.window = 2;
+            c.alph = session_alph(true, 2);
+            c.alph.pub_q = vec![0, 1, 2];
+            c.alph.topics = 2;
+            c.alph.als = vec![Al::No, Al::Reg(1), Al::Reg(2), Al::Reg(3), Al::Use(1), Al::Use(2)];
+            c.alph.use_unbound = true;
+            c.connects = vec![ConnProf::basic(true), ConnProf { tam: Some(2), rm: Some(1), mps: Some(12), ..ConnProf::basic(false) }, ConnProf { tam: Some(2), rm: Some(1), ..ConnProf::basic(true) }];
+            c.connacks = vec![AckProf::basic(false), AckProf { tam: Some(2), rm: Some(1), mps: Some(12), ..AckProf::basic(true) }, AckProf { tam: Some(2), rm: Some(1), ..AckProf::basic(false) }];
+            c.groups = vec!["c11"];
+            run_cfg::<u16>(rep, c, if thorough { Limits::new(200, 400_000, 60.0) } else { Limits::new(200, 40_000, 4.0) }, false);
+        }
+        rep.floor("c11.refused-publish-checked", 50);
         rep.floor("c11.fanout-refusal-checked", 1000);
     }
     rep.count("c11.cells-transmit", counts[0]);
